@@ -15,7 +15,7 @@ pub fn meta() -> PropertyMeta {
     PropertyMeta {
         id: "C02",
         level: "exploration",
-        rule: "generated command trees (depth <= 4, <= 5 children, default leaves and default branches, anonymous default leaf, numeric-suffix siblings, common commands; mnemonics visible from one level pairwise non-matching) x histories of 1..3 messages of 1..6 units whose headers are walks through the tree: absolute with leading colon, relative to the current path, common, in short/long form, any letter case, default suffix 1 written or omitted, default nodes spelled out or omitted; plus headers built to designate no node (unknown mnemonic, mnemonic after a leaf, header valid only under another path, branch without default child, wrong suffix) and later messages starting with a header relative to the PREVIOUS message's path. Oracle: reference resolver written from SCPI-99 6.2; recorder handlers observe which leaf ran in which form. PLUS the whole-message differential from bytes (props/execdiff.rs: 488.2 recogniser + reference resolver as the oracle): grammar-generated messages on generated trees after 0..2 byte-level mutations, and for every tree of a pool of 300 (1500) generated trees ALL strings of up to 5 (6) tokens over the tree's own mnemonics, a common command and : ; ? - each judged for designated leaf and form, -113 without any handler, handlers of later units. Non-trivial: a message of >= 2 units with a relative header after a default-branch traversal, a common header between relative ones, a leading-colon reset, a suffix sibling, an anonymous default leaf, or a negative header at position >= 2.",
+        rule: "generated command trees (depth <= 4, <= 5 children, default leaves and default branches, anonymous default leaf, numeric-suffix siblings, common commands; mnemonics visible from one level pairwise non-matching) x histories of 1..3 messages of 1..6 units whose headers are walks through the tree: absolute with leading colon, relative to the current path, common, in short/long form, any letter case, default suffix 1 written or omitted, default nodes spelled out or omitted; plus headers built to designate no node (unknown mnemonic, mnemonic after a leaf, header valid only under another path, branch without default child, wrong suffix) and later messages starting with a header relative to the PREVIOUS message's path. Oracle: reference resolver written from SCPI-99 6.2; recorder handlers observe which leaf ran in which form. PLUS the whole-message differential from bytes (props/execdiff.rs: 488.2 recogniser + reference resolver as the oracle): grammar-generated messages on generated trees after 0..2 byte-level mutations, and for every tree of a pool of 300 (1500) generated trees ALL strings of up to 5 (6) tokens over the tree's own mnemonics, a common command and : ; ? - each judged for designated leaf and form, -113 without any handler, handlers of later units. Node names also include ones that begin in lower case (no short form: the full spelling in any case is the only one). Non-trivial: a message of >= 2 units with a relative header after a default-branch traversal, a common header between relative ones, a leading-colon reset, a suffix sibling, an anonymous default leaf, or a negative header at position >= 2.",
         assumptions: &[
             "precondition SCPI itself imposes on trees: mnemonics visible from a branch (its children plus those reachable through default child branches) are pairwise non-matching",
             "at most one default leaf and one default branch per branch",
